@@ -107,6 +107,18 @@ def step (st : St) (toks : List String) : St × String :=
         else (st, "ok")
       | none => bad
     | _, _, _ => bad
+  | "restore3" :: _ => (st, "ok")    -- Manager.Restore on a three-node cluster must succeed
+  | ["restored", n, idx, dg, fresh] =>
+    -- a table restored (on a cluster of several nodes) from a stream of table `n` taken at index `idx`:
+    -- exactly the source's content at that index (C07), under an id above every id handed out before (C14)
+    match parseNameNode n, idx.toNat? with
+    | some (n, _), some idx => match st.get n with
+      | some t =>
+        if fresh != "1" then (st, "bad restored-table-reuses-an-id")
+        else if (candidates t.hist idx idx).any (fun db => userDigest db == dg) then (st, "ok")
+        else (st, "bad restored-content-is-not-the-source's-at-the-stream's-index")
+      | none => bad
+    | _, _ => bad
   | ["tables"] => (st, hexNames st.tabs)
   | ["kf", "K4", "recreate", _] => (st, "diverged || converged")
   | ["kf", "K3", "dynamic"] => (st, "diverged || converged")
